@@ -219,6 +219,20 @@ func recSign(args []string) {
 		}
 		emit(distEvent(x, b, c))
 		emit(distEvent(c, a, b))
+		// the target equal to one of the compared points, the other one exactly proportional to it
+		// (distinct as points, the same direction): an exact tie decided symbolically
+		{
+			k := 1 - float64(1+r.Intn(6))*math.Pow(2, -53)
+			if r.Intn(2) == 0 {
+				k = 1 + float64(1+r.Intn(3))*math.Pow(2, -52)
+			}
+			pa := s2.Point{Vector: a.Mul(k)}
+			if pa != a {
+				emit(distEvent(a, a, pa))
+				emit(distEvent(a, pa, a))
+				emit(distEvent(pa, a, pa))
+			}
+		}
 		// nearly orthogonal pairs for SignDotProd
 		o := s2.Point{Vector: a.Cross(randUnit(r).Vector).Normalize()}
 		emit(dotEvent(a, nudge(r, o, 3)))
